@@ -40,11 +40,21 @@ ASSUME = [
     "add_tag on a cell that was never written is left out of the oracle (crab's intended meaning of tagging data that does not exist is unclear)",
 ]
 SEARCH_MODES = ["itv", "boolitv", "zones", "signconst"]
+# known finding of this family, also accepted when it is not (yet) listed in known_findings.json
+BUILTIN_KNOWN = [{
+    "property": "C15", "stream": "search-*", "line_regex": r"; (meet|narrow) \d+ \d+ \d+", "witness_regex": r"BOTTOM the abstract value is bottom",
+    "input": regions.KNOWN_MEET,
+    "what": "region_domain meet / narrowing: two values that give an unknown region incompatible dynamic types (region(int) vs "
+            "region(ref): the dynamic type is the type of the last written values, and a store of a non-reference into a region of "
+            "references is skipped) have bottom as their meet although both describe the same memory; the repair (forget the ghost "
+            "variables of such regions in both operands and keep type top) is not local to type_value::operator& "
+            "(Coq: C15x_meet_unknown_types_refuted; meet and narrowing are excluded from the extended history theorem)",
+}]
 MAX_SHRINK = 10
 
 
 def sizes(tier):
-    return (4000, 1000) if tier == "quick" else (40000, 10000)
+    return (2500, 1000, 2500) if tier == "quick" else (40000, 10000, 40000)
 
 
 def run_cases(exe, mode, lines, path, timeout=900):
@@ -140,10 +150,12 @@ def search(rep, tier, seed, modes=SEARCH_MODES):
     d = os.path.join(vlib.VERIF, "out", rep.prop)
     os.makedirs(d, exist_ok=True)
     known = [k for k in vlib.load_known().get("findings", []) if k.get("property") == rep.prop]
+    known += [k for k in BUILTIN_KNOWN if k["what"] not in [x.get("what") for x in known]]
     nshrunk = 0
     for mi, mode in enumerate(modes):
         stream = "search-" + mode
-        lines = list(regions.CORPUS) + list(regions.CORPUS_FULL) + regions.gen(seed + 31 * (mi + 1), tier, "full", n=n)
+        lines = list(regions.CORPUS) + list(regions.CORPUS_FULL) + list(regions.CORPUS2) + [regions.KNOWN_MEET] + \
+            regions.gen(seed + 31 * (mi + 1), tier, "full", n=n)
         answers = run_cases(exe, mode, lines, os.path.join(d, stream + ".cases"))
         scratch = os.path.join(d, stream + ".scratch")
         corc = crash_oracle(exe, mode, scratch)
@@ -207,10 +219,15 @@ def run(rep, tier, seed):
                        "printed a bounded interval or a definite null/non-null answer was printed and the last register is not "
                        "bottom; distinct by input line")
     rep.assumptions = ASSUME
-    vlib.prove(rep, extra_targets=["Extract/ExtractRegions.vo"])
+    vlib.prove(rep, extra_targets=["Extract/ExtractRegions.vo", "Extract/ExtractRegions2.vo"])
     lines = regions.gen(seed, tier, "model", n=sizes(tier)[0])
     vlib.run_stream(rep, "model-itv", "regions", "regions", lines, oracle=regions.oracle,
                     nontrivial=regions.nontrivial, key=lambda l: "history", extra_args=("--mode=itv",))
+    # the extended model (Dom/RegionCore2.v): unknown regions and region_cast, offset / size ghost variables,
+    # int_to_ref / ref_to_int, forget / project; extended printing of the harness (--mode=itvx)
+    lines2 = regions.gen(seed + 7, tier, "model2", n=sizes(tier)[2])
+    vlib.run_stream(rep, "model2-itvx", "regions", "regions2", lines2, oracle=regions.oracle,
+                    nontrivial=regions.nontrivial, key=lambda l: "history", extra_args=("--mode=itvx",))
     search(rep, tier, seed)
 
 
